@@ -106,6 +106,11 @@ def gen(rng, tier):
             msg = rbytes(rng, n)
             for i in sorted({0, n // 2, n}):
                 cs.append(Case(line(rng, "generichash_obj", keylen, pre, [msg[:i], msg[i:]]), cls="generichash_obj/key-len-ne-out-len"))
+    # incremental verification = one-shot verification (HMAC and Poly1305 object verifiers, incl. a tag at the head of a longer Vec)
+    for n in (0, 1, 31, 32, 33, 100):
+        key, msg = rbytes(rng, 32), rbytes(rng, n)
+        cs.append(Case("auth_verify %s %s %s" % (hx(key), hx(msg), hx(refs.hmac512256(key, msg))), cls="auth_verify/incremental-vs-oneshot", expect="ok"))
+        cs.append(Case("poly1305_verify %s %s %s" % (hx(key), hx(msg), hx(refs.poly1305(key, msg))), cls="poly1305_verify/incremental-vs-oneshot", expect="ok"))
     if signfam:
         cs += signfam.c08_cases(rng, tier)
     return cs
